@@ -527,10 +527,132 @@ class StoreFilter(Case):
         return self.one(values["include"], values["exclude"])
 
 
+class StoreEndToEnd(Case):
+    """bounded: the frame PandasStore.save returns for a run of the real stream front ends - one row per
+    input row in input order; the flag column of every test equals the direct call on the rows, the data
+    column equals the input, the axes columns equal the source, the roll-up column equals the aggregate of
+    the test columns - on tables with default, permuted and offset row labels, with and without a window"""
+
+    is_bounded = True
+    module = "ioos_qc.stores"
+    function = "PandasStore.save"
+    default_props = {}
+    props = {"bounded.saved_frame": ("C19",)}
+
+    def all_props(self):
+        return {"C19"}
+
+    def one(self, values):
+        import logging
+        import warnings
+
+        import numpy as np
+        import pandas as pd
+
+        from pyvc import replay
+
+        cfgm, stm, stom, qm = (replay.real_module(m) for m in ("ioos_qc.config", "ioos_qc.streams", "ioos_qc.stores", "ioos_qc.qartod"))
+        vals = [1.0, 20.0, 3.0, 40.0, 5.0, 60.0]
+        secs = [0, 10, 20, 30, 40, 50]
+        n = len(vals)
+        v = np.array(vals)
+        t = np.array([s_ * 10**9 for s_ in secs], dtype="datetime64[ns]")
+        z = np.array([1.5 + i for i in range(n)])
+        span = {"fail_span": [0, 50], "suspect_span": [2, 30]}
+        ctx = {"streams": {"v": {"qartod": {"gross_range_test": span, "spike_test": {"suspect_threshold": 10, "fail_threshold": 30}}}}}
+        win = values["window"]
+        if win:
+            ctx["window"] = {"starting": str(np.datetime64(win[0], "s")), "ending": str(np.datetime64(win[1], "s"))}
+        config = cfgm.Config(ctx)
+        logging.disable(logging.CRITICAL)
+        try:
+            with warnings.catch_warnings():
+                warnings.simplefilter("ignore")
+                if values["front"] == "numpy":
+                    st = stm.NumpyStream(inp=v.copy(), time=t.copy(), z=z.copy(), lat=z + 1, lon=z + 2)
+                else:
+                    df = pd.DataFrame({"time": t, "v": v, "z": z, "lat": z + 1, "lon": z + 2})
+                    if values["index"] == "permuted":
+                        df = df.set_axis(list(range(n - 1, -1, -1)))
+                    elif values["index"] == "offset":
+                        df = df.set_axis([100 - 7 * i for i in range(n)])
+                    st = stm.PandasStream(df)
+                store = stom.PandasStore(st.run(config))
+                if values["rollup"]:
+                    store.compute_aggregate(name="rollup")
+                out = store.save(write_data=values["write_data"], write_axes=values["write_axes"])
+        except Exception as e:  # noqa: BLE001
+            return "%s raised %r" % (values, e)
+        finally:
+            logging.disable(logging.NOTSET)
+        if len(out) != n:
+            return "%d rows in the saved frame for %d input rows" % (len(out), n)
+        rows = [i for i in range(n) if (not win) or (win[0] <= secs[i] < win[1])]
+        exp = {}
+        with warnings.catch_warnings():
+            warnings.simplefilter("ignore")
+            exp["v_qartod_gross_range_test"] = qm.gross_range_test(v[rows], **span)
+            exp["v_qartod_spike_test"] = qm.spike_test(v[rows], suspect_threshold=10, fail_threshold=30)
+        cols = {}
+        for name, fl in exp.items():
+            if name not in out.columns:
+                return "no column %s in %s" % (name, list(out.columns))
+            col = out[name].to_numpy()
+            want = {i: int(f) for i, f in zip(rows, np.ma.filled(np.ma.masked_array(fl), 255).tolist())}
+            for i in range(n):
+                got = col[i]
+                present = not (got is None or (isinstance(got, float) and got != got) or got is np.ma.masked or (hasattr(pd, "isna") and pd.isna(got)))
+                if i in want and (not present or int(got) != want[i]):
+                    return "column %s row %d holds %r, the direct call gives %d" % (name, i, got, want[i])
+                if i not in want and present:
+                    return "column %s row %d (not evaluated) holds %r" % (name, i, got)
+            cols[name] = [want.get(i) for i in range(n)]
+        if values["write_data"]:
+            if "v" not in out.columns:
+                return "no data column"
+            d = out["v"].to_numpy()
+            for i in rows:
+                if not (float(d[i]) == float(v[i])):
+                    return "data column row %d holds %r, input %r (frame not in input order?)" % (i, d[i], v[i])
+        if values["write_axes"]:
+            for name, src in (("time", t), ("z", z), ("lat", z + 1), ("lon", z + 2)):
+                if name not in out.columns:
+                    return "no axis column %s" % name
+                a = out[name].to_numpy()
+                for i in rows:
+                    if not (a[i] == src[i]):
+                        return "axis column %s row %d holds %r, source %r" % (name, i, a[i], src[i])
+        if values["rollup"]:
+            names = [c_ for c_ in out.columns if c_.endswith("rollup")]
+            if len(names) != 1:
+                return "roll-up columns: %r" % names
+            r = out[names[0]].to_numpy()
+            order = {9: 0, 2: 1, 1: 2, 3: 3, 4: 4}
+            for i in range(n):
+                present = [cols[c_][i] for c_ in cols if cols[c_][i] is not None]
+                want = max(present, key=lambda f_: order[f_]) if present else 9
+                if int(r[i]) != want:
+                    return "roll-up row %d holds %r, the worst of the test columns is %d" % (i, r[i], want)
+        return None
+
+    def bounded_checks(self, tier, rng):
+        for front, index in (("numpy", "default"), ("pandas", "default"), ("pandas", "permuted"), ("pandas", "offset")):
+            for window in (None, [10, 40]):
+                for wd in (False, True):
+                    for wa in (False, True):
+                        for ru in ((False, True) if (wd and wa) else (False,)):
+                            v = {"front": front, "index": index, "window": window, "write_data": wd, "write_axes": wa, "rollup": ru}
+                            yield ("saved-frame", "saved-frame", v, (lambda v=v: self.one(v)))
+
+    def replay_bounded(self, label, values):
+        return self.one(values)
+
+
 _cases_without_filter = cases
 
 
 def cases():  # noqa: F811
     cs = [c for c in _cases_without_filter() if not isinstance(c, StoreFilter)]
     cs.append(StoreFilter())
+    cs.append(StoreEndToEnd())
     return cs
